@@ -66,6 +66,11 @@ def gen_groups(ctx):
       dict(p=1, end=6, lr=dict(kind="linear", lr0=0.5, K=32)),               # stays 1
       dict(p=5, end=10, lr=dict(kind="stair", lr0=0.25, bounds=[2, 6])),     # 1 (floor 5), 10, 10
   ]
+  # warm-up: the learning rate rises above lr(0), the scheduled expression goes negative and must be
+  # clamped to 1 (added after a seeded change that only guarded the zero interval was missed; the
+  # increments are exponent steps: x2 at step 2, back at 5, halved at 8)
+  sched.insert(1, dict(p=20, end=40, lr=dict(kind="levels", lr0=0.125,
+                                             levels=[[2, 1], [5, -1], [8, -1]])))
   for i, sc in enumerate(sched if not quick else sched[:4]):
     for s in ([1, 2] if not quick else [1 + i % 2]):
       kw = dict(graft_type=rng.choice(["SGD", "RMSPROP"]), nesterov=bool(rng.below(2)))
